@@ -57,6 +57,9 @@ def generate(rng, tier):
             roots = [xser.S(rng.choice(names)) if rng.random() < 0.4 else "-" for _ in range(k)]
             yield (f"gensched {dsx} {sx(roots)} {sx(list(o))} 0 {sx([[hx(s)] for s in srcs])} "
                    f"{sx([str(i) for i in sched])}"), "interleave"
+    # a packet whose decoding raises (C14 allows that) between two good ones
+    for kind in RAISE_KINDS:
+        yield f"genraise {kind}", "raise-in-the-middle"
     # generators of one definition over *segmented* streams of the same APIDs, with reassembly on: per-generator state
     from harness.props import c12
     hdsx = sx(c12.header_only_def())
@@ -69,7 +72,64 @@ def generate(rng, tier):
                f"{sx([str(i) for i in sched])}"), "interleave-segmented"
 
 
+RAISE_XTCE = """<?xml version='1.0' encoding='UTF-8'?>
+<xtce:SpaceSystem xmlns:xtce="http://www.omg.org/spec/XTCE/20180204" name="T"><xtce:TelemetryMetaData>
+<xtce:ParameterTypeSet>%s<TYPE/></xtce:ParameterTypeSet>
+<xtce:ParameterSet>%s<xtce:Parameter name="BODY" parameterTypeRef="BODY_T"/></xtce:ParameterSet>
+<xtce:ContainerSet><xtce:SequenceContainer name="CCSDSPacket"><xtce:EntryList>%s
+<xtce:ParameterRefEntry parameterRef="BODY"/></xtce:EntryList></xtce:SequenceContainer></xtce:ContainerSet>
+</xtce:TelemetryMetaData></xtce:SpaceSystem>"""
+RAISE_KINDS = {
+    # kind: (type of BODY, data of the good packets, data of the middle packet)
+    "short-float": ('<xtce:FloatParameterType name="BODY_T"><xtce:FloatDataEncoding sizeInBits="32"/></xtce:FloatParameterType>',
+                    b"\x3f\x80\x00\x00", b"\x3f\x80"),
+    "unlisted-enum": ('<xtce:EnumeratedParameterType name="BODY_T"><xtce:IntegerDataEncoding sizeInBits="8" encoding="unsigned"/>'
+                      '<xtce:EnumerationList><xtce:Enumeration value="1" label="ON"/></xtce:EnumerationList>'
+                      '</xtce:EnumeratedParameterType>', b"\x01", b"\x07"),
+    "undecodable-text": ('<xtce:StringParameterType name="BODY_T"><xtce:StringDataEncoding encoding="UTF-8"><xtce:SizeInBits>'
+                         '<xtce:Fixed><xtce:FixedValue>16</xtce:FixedValue></xtce:Fixed></xtce:SizeInBits></xtce:StringDataEncoding>'
+                         '</xtce:StringParameterType>', b"AB", b"\xff\xfe"),
+}
+
+
+def raise_doc(kind):
+    from harness.props import c19
+    hdr = c19.HEADER[:7]
+    ts = "".join(f'<xtce:IntegerParameterType name="{n}_T"><xtce:IntegerDataEncoding sizeInBits="{w}" encoding="unsigned"/>'
+                 f'</xtce:IntegerParameterType>' for n, w in hdr)
+    ps = "".join(f'<xtce:Parameter name="{n}" parameterTypeRef="{n}_T"/>' for n, _ in hdr)
+    es = "".join(f'<xtce:ParameterRefEntry parameterRef="{n}"/>' for n, _ in hdr)
+    return (RAISE_XTCE % (ts, ps, es)).replace("<TYPE/>", RAISE_KINDS[kind][0])
+
+
+def impl_genraise(kind):
+    import warnings
+    from space_packet_parser import packets
+    from space_packet_parser.xtce import definitions
+    _, good, bad = RAISE_KINDS[kind]
+    defn = definitions.XtcePacketDefinition.from_xtce(io.BytesIO(raise_doc(kind).encode()))
+    stream = b"".join(bytes(packets.create_ccsds_packet(data=d, apid=5, sequence_count=i)) for i, d in enumerate([good, bad, good]))
+    seen = []
+    with warnings.catch_warnings():
+        warnings.simplefilter("ignore")
+        try:
+            for p in defn.packet_generator(io.BytesIO(stream)):
+                seen.append(p.raw_data.sequence_count)
+        except Exception as e:  # noqa: BLE001
+            return f"generator-ended-after {len(seen)} !{type(e).__name__}"
+    return "later-packets-delivered" if 0 in seen and 2 in seen else f"packets-lost {seen}"
+
+
+def _gen_ended(line, mo, io_):
+    return line.startswith("genraise") and mo == "later-packets-delivered" and io_.startswith("generator-ended-after 1")
+
+
+KNOWN_PREDICATES = {"generator_ended_by_decoding_error": _gen_ended}
+
+
 def impl(line):
+    if line.startswith("genraise"):
+        return impl_genraise(line.split()[1])
     t = parse_sx(line)
     if t[0] == "gen":
         return genutil.run_gen(line)
